@@ -501,6 +501,22 @@ func c05Shapes(thorough bool) []shapeSpec {
 		out = append(out, shapeSpec{Fields: []fieldSpec{{Name: "Ab", Kind: "string"}, {Name: "Sub", Kind: "struct", Sub: sub, Tag: tag}, {Name: "Name", Kind: "string"}}})
 		out = append(out, shapeSpec{Fields: []fieldSpec{{Name: "Sub", Kind: "struct", Sub: sub, Tag: tag}, {Name: "X", Kind: "int"}}})
 	}
+	// wide blocks inside wide blocks (8, 9, 10, 17 keys at each level; scratch space sized for "a few" keys)
+	for _, w := range []int{8, 9, 10, 17} {
+		for _, v := range []int{1, 8, 9, 10, 17} {
+			mk := func(prefix string, n int) []fieldSpec {
+				var fs []fieldSpec
+				for i := 0; i < n; i++ {
+					fs = append(fs, fieldSpec{Name: fmt.Sprintf("%s%d", prefix, i), Kind: []string{"int", "string", "bool", "float64"}[i%4]})
+				}
+				return fs
+			}
+			innermost := &shapeSpec{Fields: mk("H", v)}
+			mid := &shapeSpec{Fields: append(mk("G", v-1), fieldSpec{Name: "Deeper", Kind: "struct", Sub: innermost})}
+			outer := append(mk("F", w-1), fieldSpec{Name: "In", Kind: "struct", Sub: mid})
+			out = append(out, shapeSpec{Fields: outer})
+		}
+	}
 	nameSets := [][]string{{"X"}, {"Ab"}, {"FooBar"}, {"A1"}, {"X", "Ab"}, {"FooBar", "A1"}, {"Ab", "X"}, {"X", "Ab", "FooBar"}, {"A1", "FooBar", "X"}}
 	for _, names := range nameSets {
 		k := len(names)
@@ -579,7 +595,7 @@ func init() {
 	fw.Register(&fw.Check{
 		ID:    "C05",
 		Level: "model_checking",
-		Rule: "struct shapes: <=3 fields of kinds int/float64/string/bool/nested struct (4 inner shapes, nesting <=2, named and anonymous struct types) over 9 name sets, 3 tagging modes (none, tagged, a tag equal to another field's name: precedence), Name absent or at every index, plus hand-declared named types; " +
+		Rule: "struct shapes: <=3 fields of kinds int/float64/string/bool/nested struct (4 inner shapes, nesting <=2, named and anonymous struct types) over 9 name sets, 3 tagging modes (none, tagged, a tag equal to another field's name: precedence), Name absent or at every index, plus hand-declared named types, nested blocks designated by dotted tags whose name part holds commas / spaces / dots, and wide shapes (8/9/10/17 keys at each of three nesting levels); " +
 			"per shape: every value vector over per-kind alphabets (6 ints incl. extremes, 7 floats incl. -0.0/MaxFloat64/5e-324, 10 strings needing escapes (quotes, trailing backslash, control characters), 2 bools) with the canonical key spelling, every key spelling (case patterns, an underscore at every position) with one value vector, every admissible block-type spelling for named types, struct binding and slice binding of 1..3 blocks into a pre-filled slice. " +
 			"Also: slices of 1..400 seven-field structs (more than 241 and 2288 constants), three distinct local types of the same name unmarshalled in every order, and a reload into the filled slice from a text that omits a field (previous elements discarded). Oracle: the value is rendered as BCL text, Unmarshal must return nil and the target must equal the written value (floats by bit pattern).",
 		Subs:           []*fw.Sub{subC05, subC05Local, subC05Big},
